@@ -163,6 +163,8 @@ type SrvFid struct {
 	refcount  int
 	destroyed bool        // FidDestroy has been called
 	pending   bool        // being created by a request that has not been answered yet
+	kept      bool        // the fid table holds a reference (from retain until clunk, remove or disconnect)
+	dead      bool        // the last reference has been dropped: on its way out of the table
 	opened    bool        // True if the SrvFid is opened
 	Fconn     *Conn       // Connection the SrvFid belongs to
 	Omode     uint8       // Open mode (O* flags), if the fid is opened
@@ -484,15 +486,16 @@ func (conn *Conn) FidGet(fidno uint32) *SrvFid {
 	}
 
 	// a fid whose Tattach, Tauth or Twalk is still executing does not exist yet:
-	// the file server has not set it up
+	// the file server has not set it up; one whose last reference is gone does
+	// not exist any more: it is on its way out of the table
 	fid.Lock()
-	pending := fid.pending
-	if !pending {
+	usable := !fid.pending && !fid.dead
+	if usable {
 		fid.refcount++
 	}
-	verifPoint("@fid.get", conn, fid, pending, fid.refcount)
+	verifPoint("@fid.get", conn, fid, fid.pending, fid.refcount)
 	fid.Unlock()
-	if pending {
+	if !usable {
 		return nil
 	}
 
@@ -545,10 +548,24 @@ func (fid *SrvFid) retain() {
 	}
 	if !closed {
 		fid.refcount++
+		fid.kept = true
 	}
 	fid.pending = false
 	verifPoint("@fid.retain", fid.Fconn, fid, closed, fid.refcount)
 	fid.Unlock()
+}
+
+// release drops the reference the fid table holds, once: after a successful
+// Tclunk, after a Tremove, or when the connection closes — whichever comes first.
+// The fid is destroyed when the last request using it has let go of it.
+func (fid *SrvFid) release() {
+	fid.Lock()
+	kept := fid.kept
+	fid.kept = false
+	fid.Unlock()
+	if kept {
+		fid.DecRef()
+	}
 }
 
 // Increase the reference count for the fid.
@@ -565,6 +582,9 @@ func (fid *SrvFid) DecRef() {
 	fid.Lock()
 	fid.refcount--
 	n := fid.refcount
+	if n <= 0 {
+		fid.dead = true
+	}
 	verifPoint("@fid.dec", fid.Fconn, fid, n)
 	fid.Unlock()
 
